@@ -75,6 +75,15 @@ def nontrivial_step(pid, sc, st, c):
                 act = [t_ for t_ in (q["post"]["trackers"] if q and q["post"] else []) if t_["status"] in ("happening", "rebuilding", "recovering")]
                 return len(act) >= 2
             return ch
+        if pid == "C19":
+            return bool(sc["events"]) and st["t"] >= min(e["occ"] for e in sc["events"])
+        if pid == "C02":
+            p = ph.get("distribute")
+            if not p or p["post"] is None:
+                return False
+            e0 = p["pre"]["econ"]
+            return bool((e0["prod"] < e0["dTot"] * (1 - 1e-12)).any()) or bool(p.get("exc")) or not np.array_equal(
+                p["pre"]["econ"]["stock"][c["fin"]], p["post"]["econ"]["stock"][c["fin"]])
         if pid == "C13":
             mf = sc["model"]["monetary_factor"]
             return any(e.get("emf", mf) != mf for e in sc["events"])
@@ -114,6 +123,11 @@ def gen_for(stream, seed):
                 f = rng.choice([1e-3, 1e-5, 1e-7])
                 ev["impact"] = {k: v * f for k, v in ev["impact"].items()}
         sc["stream"] = "multi"
+        return sc
+    if stream == "early":
+        # first occurrences 1..3 so that the steps in which the overproduction module is skipped matter
+        sc = scen.gen_scenario(seed, "shocked", nev=rng.choice([1, 2, 3]), T=rng.choice([16, 24]), max_occ=3)
+        sc["stream"] = "early"
         return sc
     if stream == "units":
         sc = scen.gen_scenario(seed, "shocked", types=["rebuild", "recovery"], nev=rng.choice([1, 2]), T=rng.choice([12, 20]))
